@@ -170,6 +170,6 @@ CHECKS["C04"] = {
     "rule": "case = (B chunk list + config, A derivation, initial target, limit policy, server cap, style, cut style). Non-trivial = at least one chunk reused (from A or the target) AND at least one fetched AND a multipart response used; distinct by choice-sequence hash.",
     "assumptions": ["server holds B unchanged for the whole update", "A is an intact zchunk file (damaged sources are C08's subject)"],
     "runs": [
-        {"bin": "asan/C04", "cases": P(600, 20000), "procs": P(8, 16), "size": 70, "shrink_budget": 300, "cpu_limit": 60},
+        {"bin": "asan/C04", "cases": P(5000, 60000), "procs": P(8, 16), "size": 70, "shrink_budget": 300, "cpu_limit": 60},
     ],
 }
